@@ -146,6 +146,22 @@ def add_flat(cr, D, zb, fam="O02.flat", one_key=None):
             return w
         return {k: ((v_, one_key) if k[1] not in POSITION_ONLY else v_) for k, v_ in w.items()}
     cr.add("%s(D=%d)" % (fam, D), fam, D, ["k", "a", "b"], body, wants, signs={"b": POS})
+    # assignment across ranges of the same static type but different extents (a sub-block of the same view), then movement: the assigned iterator
+    # must walk with the extents of the range it was assigned from
+    if D <= 2 and zb and one_key is None:
+        hs = [A("h%d" % i) for i in range(D)]
+        sub = "v.sliced(0, h0)" if D == 1 else "v({0, h0}, {0, h1})"
+        body3 = ("auto&& w = %s; auto it = v.elements().begin() + a; auto jt = w.elements().begin() + b; it = jt; it += c; "
+                 "out[0] = eaddr(*it, base); out[1] = it - w.elements().begin();" % sub)
+        env3 = {"z%d" % i: A("h%d" % i) + A("r%d" % i) for i in range(D)}
+        sg3 = {"h%d" % i: POS for i in range(D)}
+        sg3.update({"r%d" % i: NONNEG for i in range(D)})
+
+        def wants3(case, env_):
+            def atw(pos):
+                return v.subst(env3).addr(digits(pos, hs, [P.const(0)] * D)) * viewops.ELEM
+            return {(0, "it=jt(other range)+c:deref"): atw(A("b") + A("c")), (1, "it=jt(other range)+c:pos"): A("b") + A("c")}
+        cr.add("%s.xassign(D=%d)" % (fam, D), fam, D, ["a", "b", "c"] + ["h%d" % i for i in range(D)], body3, wants3, cases=[dict(env3, __signs=sg3)])
     # front / back with sizes z = 1 + y (so that z-1 >= 0 is visible to the sign analysis)
     body2 = "auto&& es = v.elements(); out[0] = eaddr(es.front(), base); out[1] = eaddr(es.back(), base); out[2] = eaddr(*es.begin(), base);"
     env = {"z%d" % i: 1 + A("y%d" % i) for i in range(D)}
